@@ -5,6 +5,13 @@ from collections import Counter
 from . import gen, refimpl
 
 
+def md5_single(key):
+    """an ordinary user-supplied single-value strategy (differs from FNV-1a on every input)"""
+    import hashlib
+
+    return int(hashlib.md5(gen.to_bytes(key) if not isinstance(key, (bytes, bytearray)) else bytes(key)).hexdigest()[:16], 16)
+
+
 class Cfg:
     def __init__(self, counting, capacity, bucket_size, max_swaps, finger_size, auto_expand, expansion_rate, hname, hf):
         self.counting = counting
@@ -121,8 +128,12 @@ def gen_keys(rng, cfg, n):
                 tab[k] = rng.randint(1, 2**32 - 1)
             else:
                 tab[k] = rng.choice([2**64 + rng.randint(1, 10**6), 2**80 + rng.randint(1, 999), -rng.randint(1, 10**9)])  # huge / negative hash values
-        cfg.hf = gen.SimpleTable("packed", tab)
+        # keys outside the table (the decimal string of a fingerprint, hashed for the alternate bucket) hash unlike the library default
+        cfg.hf = gen.SimpleTable("packed", tab, salt=b"|packed")
         cfg.hname = "hand_packed_buckets"
+    elif rng.random() < 0.2:
+        cfg.hf = md5_single
+        cfg.hname = "hand_md5_single_value"
     keys = [k for k in keys if cfg.raw_fp(k) != 0]
     return keys
 
